@@ -54,6 +54,7 @@ Apply(s0, e) ==
     [] e.a = "subscribe" -> Subscribe(s, e.o, Field(e, "eff", <<>>))
     [] e.a = "unsubscribe" -> Unsubscribe(s, e.o, Field(e, "to", e.o), e.t)
     [] e.a = "state_unsubscribe" -> StateUnsubscribe(s, Field(e, "to", e.o), e.t)
+    [] e.a = "set_max_height" -> ApiSetMaxHeight(s, e.h)
     [] e.a = "stabilise" -> StabiliseToHandlers(s)
     [] OTHER -> s
 
@@ -123,8 +124,42 @@ JudgeRets(post, obs) ==
   ELSE {Viol(IF \E i \in 1..Len(post.retLog) : "v" \in DOMAIN post.retLog[i] THEN "C08" ELSE "C10",
              <<"returned", obs.rets, "expected", post.retLog>>)}
 
+\* C09: deliveries of the round against the per-subscription automaton
+JudgeDlv(pre, obs) ==
+  LET got == {[o |-> obs.dlv[i].o, t |-> obs.dlv[i].t, u |-> obs.dlv[i].u, v |-> obs.dlv[i].v] :
+                i \in 1..Len(obs.dlv)}
+      want == RefDlv(pre)
+  IN {Viol("C09", <<"unexpected delivery", d>>) : d \in got \ want}
+     \cup {Viol("C09", <<"missing delivery", d>>) : d \in want \ got}
+     \cup (IF Cardinality(got) # Len(obs.dlv) THEN {Viol("C09", <<"delivered twice", obs.dlv>>)} ELSE {})
+     \cup {Viol("C09", <<"delivered value differs from observer read", obs.dlv[i]>>) :
+            i \in {j \in 1..Len(obs.dlv) :
+                     /\ obs.dlv[j].u # "Invalidated"
+                     /\ obs.dlv[j].rd # <<"ok", obs.dlv[j].v>>}}
+
+\* Panics: none where the spec says ok (C04); where the spec says a misuse/limit panic is due,
+\* the code must panic too and name the cause (C19).
+ModelClass(post) ==
+  CASE post.panic = "panic:height" -> "height"
+    [] post.panic = "panic:cyclic" -> "cyclic"
+    [] post.panic = "panic:status" -> "status"
+    [] post.panic = "panic:user"   -> "user"
+    [] post.panic = "panic:max_height_seen" -> "max_height_seen"
+    [] OTHER -> "other"
 JudgePanic(post, obs) ==
-  IF obs.panic # "" /\ Ok(post) THEN {Viol("C04", <<"panic", obs.panic>>)} ELSE {}
+  IF obs.panic # "" /\ Ok(post)
+  THEN {Viol("C04", <<"panic", obs.panic>>)}
+       \cup (IF obs.pclass \in {"height", "cyclic", "max_height_seen"}
+             THEN {Viol("C19", <<"admissible call rejected", obs.panic>>)} ELSE {})
+  ELSE IF obs.panic = "" /\ ~Ok(post) /\ ModelClass(post) \in {"height", "cyclic", "status", "max_height_seen"}
+       THEN {Viol("C19", <<"no panic although", post.panic, "is due">>)}
+  ELSE IF obs.panic # "" /\ ~Ok(post) /\ ModelClass(post) \in {"height", "cyclic"}
+          /\ obs.pclass # ModelClass(post)
+       THEN {Viol("C19", <<"panic does not name the cause", post.panic, obs.panic>>)}
+  ELSE {}
+JudgeDropAll(e) ==
+  IF e.obs.panic # "" THEN {Viol(IF e.after_panic THEN "C19" ELSE "C12", <<"dropping everything panicked", e.obs.panic>>)}
+  ELSE {}
 
 ---------------------------------------------------------------------------
 (* C11: the audit evaluated on the state RECONSTRUCTED from the snapshot    *)
@@ -206,6 +241,11 @@ TraceStep ==
      IF e.a = "reset"
      THEN /\ st' = InitState(Field(e, "maxh", DefaultMaxH))
           /\ UNCHANGED <<nbad, ndiv>>
+     ELSE IF e.a = "drop_all"
+     THEN /\ st' = st
+          /\ nbad' = nbad + Cardinality(JudgeDropAll(e))
+          /\ UNCHANGED ndiv
+          /\ (JudgeDropAll(e) # {} => PrintT(<<"JUDGE", l, Field(e, "run", 0), ToJson(JudgeDropAll(e))>>))
      ELSE LET coneB == IF e.a = "stabilise"
                        THEN ConeOf(st, ObservedNodes(st, LiveObs(st) \cup LinkedObs(st)), {}) ELSE {}
               pre == Apply(st, e)
@@ -214,7 +254,7 @@ TraceStep ==
               bad == JudgePanic(post, obs)
                      \cup (IF obs.panic = "" /\ Ok(post)
                            THEN JudgeReads(post, obs) \cup JudgeVars(post, obs) \cup JudgeRets(post, obs)
-                                \cup (IF e.a = "stabilise" THEN JudgeInv(pre, obs, coneB) ELSE {})
+                                \cup (IF e.a = "stabilise" THEN JudgeInv(pre, obs, coneB) \cup JudgeDlv(pre, obs) ELSE {})
                                 \cup JudgeAudit(post, obs)
                            ELSE {})
               div == IF obs.panic = "" /\ Ok(post) THEN Diverge(post, obs.snap)
